@@ -224,6 +224,20 @@ class DictReader:
 
         raise ParserException(msg)
 
+    @staticmethod
+    def _require_text(attrs, keys):
+        """
+        Names and Section types are used in paths and uniqueness checks and
+        have to be strings. Raises a ValueError otherwise.
+
+        :param attrs: dictionary of odML object attributes.
+        :param keys: attribute names that have to be strings if they are set.
+        """
+        for key in keys:
+            if attrs.get(key) is not None and not isinstance(attrs[key], str):
+                msg = "'%s' has to be a string, found '%s'"
+                raise ValueError(msg % (key, type(attrs[key]).__name__))
+
     def warn(self, msg, label=LABEL_WARNING):
         """
         Adds a message to the parsers warnings property. If the parsers show_warnings
@@ -345,6 +359,7 @@ class DictReader:
                     sec_attrs[odmlfmt.Section.map(attr)] = content
 
             try:
+                self._require_text(sec_attrs, ("name", "type"))
                 sec = odmlfmt.Section.create(**sec_attrs)
 
                 for prop in sec_props:
@@ -396,6 +411,7 @@ class DictReader:
                     prop_attrs[odmlfmt.Property.map(attr)] = content
 
             try:
+                self._require_text(prop_attrs, ("name",))
                 prop = odmlfmt.Property.create(**prop_attrs)
                 odml_props.append(prop)
             except Exception as exc:
